@@ -55,6 +55,9 @@ static const double DV[] = { 0.0, -0.0, 0.5, 1.5, 2.5, 999999999.5, 1e9, 1000000
     /* exponent borders and negative exponents: two/three exponent digits, carries into the next power of ten */
     1e100, 9.9999996e99, 1e-100, 9.5e-100, 9.5e-10, 3.7e-7, 1e99, 9.99999e-5, 1e15, 123456789012345678.0 };
 #define NDV ((int)(sizeof DV / sizeof DV[0]))
+/* long double values no double can hold (finite, beyond DBL_MAX; and below the smallest double) */
+static const long double LDX[] = { 1e309L, -1e400L, 3.5953862697246314e308L /* 2 * DBL_MAX */, 1.18973149535723176502e4932L /* LDBL_MAX */, 1e-400L };
+#define LDVAL(vi) ((vi) < NDV ? (long double)DV[vi] : LDX[(vi) - NDV])
 static const char *SV[] = { "", "abc", "a string of exactly forty characters !!!", "h\xc3\xa9llo", NULL };      /* the null pointer (a violation the formatter itself finds) only in the reporting and memory sweeps */
 static const wchar_t WBAD[] = { L'o', L'k', 0xd800, L'x', 0 };     /* not convertible in any locale: printf fails with EILSEQ */
 static const wchar_t *WV[] = { L"", L"wide", L"\xe9\x20ac", WBAD };
@@ -139,7 +142,7 @@ static int float_ok(const char *lib, const char *ref, long double arg) {
     /* digits after the point */
     if (ld && rd) { int a = 0, b = 0; for (const char *p = ld + 1; *p >= '0' && *p <= '9'; p++) a++; for (const char *p = rd + 1; *p >= '0' && *p <= '9'; p++) b++; if (a != b) return 0; }
     if (strlen(lib) != strlen(ref)) return 0;
-    if (isnan((double)arg) || isinf((double)arg)) return 0;    /* text must be identical for these */
+    if (isnan((double)arg) || isinf(arg)) return 0;    /* text must be identical for these */
     if (lib[0] != '[' || ref[0] != '[') return 0;   /* every directive is wrapped in brackets */
     char *e1, *e2; long double x = strtold(lib + 1, &e1), y = strtold(ref + 1, &e2);
     if (e1 == lib + 1 || e2 == ref + 1) return 0;
@@ -155,7 +158,7 @@ static int float_ok(const char *lib, const char *ref, long double arg) {
 }
 
 static const char *valcls(int type, Val v, char *b) {
-    if (type == T_DBL || type == T_LDBL) { long double x = type == T_DBL ? v.d : v.ld; sprintf(b, "%s", isnan((double)x) ? "nan" : isinf((double)x) ? "inf" : x == 0 ? "zero" : fabsl(x) > 1e9L ? "abs>1e9" : fabsl(x) < 2.3e-308L ? "denormal" : fabsl(x) < 1e-4L ? "tiny" : "ordinary"); }
+    if (type == T_DBL || type == T_LDBL) { long double x = type == T_DBL ? v.d : v.ld; sprintf(b, "%s", isnan((double)x) ? "nan" : isinf(x) ? "inf" : isinf((double)x) ? "finite-beyond-double" : x == 0 ? "zero" : fabsl(x) > 1e9L ? "abs>1e9" : fabsl(x) < 2.3e-308L ? "denormal" : fabsl(x) < 1e-4L ? "tiny" : "ordinary"); }
     else if (type == T_STR || type == T_WSTR) sprintf(b, "str");
     else if (type >= T_UINT && type <= T_UIMAX) sprintf(b, "%s", v.u == 0 ? "zero" : "pos");
     else sprintf(b, "%s", v.i == 0 ? "zero" : v.i < 0 ? "neg" : "pos");
@@ -236,6 +239,32 @@ static void one(const char *fmt, int type, Val v, int ns, int s1, int s2, int is
     (void)vb;
 }
 
+/* output far longer than any buffer bound (the stream entry points have none): text and count as C's fprintf */
+static void long_pass(int only) {
+    static char big1[5001], big2[3001], ref[12000], got[12000]; memset(big1, 'k', 5000); memset(big2, 'm', 3000);
+    static char s100[101]; memset(s100, 'q', 100);
+    for (int ci = 0; ci < 6; ci++) { if (only >= 0 && ci != only) continue;
+        for (int e = 0; e < 4; e++) { int entry = e == 0 ? 2 : e == 1 ? 3 : e == 2 ? 6 : 7; int n = 0, r = 0, crashed = 0; const char *fmt = "";
+            char cs[120]; snprintf(cs, sizeof cs, "long %d", ci);
+            FILE *fp = IS_STDOUT(entry) ? NULL : sfp; if (fp) clearerr(fp);
+            h_n = 0; n_calls++;
+#define LC(F, ...) do { fmt = F; n = snprintf(ref, sizeof ref, F, __VA_ARGS__); if (sigsetjmp(jb, 1) == 0) { armed = 1; r = entry == 2 ? f_fprintf(fp, F, __VA_ARGS__) : entry == 3 ? f_printf(F, __VA_ARGS__) : entry == 6 ? w_vfprintf(fp, F, __VA_ARGS__) : w_vprintf(F, __VA_ARGS__); armed = 0; } else crashed = 1; } while (0)
+            switch (ci) {
+            case 0: LC("%s|", big1); break; case 1: LC("%s%s|", big2, big2); break; case 2: LC("%4090d:%s|", 7, s100); break;
+            case 3: LC("%5000d|", 7); break; case 4: LC("%4500d %.80Lf|%d", 7, (long double)2.5, 3); break; case 5: LC("%4096d%s|%ls", 7, "ab", L"cd"); break; }
+            ssize_t c = 0;
+            if (fp) { fflush(fp); c = pread(sf_fd, got, sizeof got - 1, 0); fseek(fp, 0, SEEK_SET); if (ftruncate(sf_fd, 0)) {} }
+            else { fflush(stdout); c = pread(so_fd, got, sizeof got - 1, 0); if (ftruncate(so_fd, 0)) {} lseek(so_fd, 0, SEEK_SET); }
+            if (c < 0) c = 0; got[c] = 0;
+            if (verbose) printf("entry %s format \"%s\": ret=%d (printf: %d) handler=%d crashed=%d, %zd characters arrived\n", ENT[entry], fmt, r, n, h_n, crashed, c);
+            if (crashed) { report(ENT[entry], "crash", "output-longer-than-4096", cs); continue; }
+            if (strcmp(g_prop, "C11")) { if (!strcmp(g_prop, "C05") && ((r < 0) != (h_n == 1) || h_n > 1)) report(ENT[entry], "handler-count-and-result-disagree", "output-longer-than-4096", cs); continue; }
+            if (r < 0) { report(ENT[entry], "fails-although-it-fits", "output-longer-than-4096", cs); continue; }
+            if (r != n) { report(ENT[entry], "wrong-return-count", "output-longer-than-4096", cs); continue; }
+            if (c != n || memcmp(got, ref, n)) report(ENT[entry], "text-differs-from-printf", "output-longer-than-4096", cs);
+        } }
+}
+
 int main(int argc, char **argv) {
     setlocale(LC_ALL, "C.UTF-8"); g_prop = getenv("C11_PROP") ? getenv("C11_PROP") : "C11";
     res = fdopen(dup(1), "w"); so_fd = memfd_create("stdout", 0); if (!res || so_fd < 0 || dup2(so_fd, 1) < 0) return 2;
@@ -249,10 +278,11 @@ int main(int argc, char **argv) {
     if (!f_sprintf || !f_snprintf || !f_fprintf || !ss || !f_printf || !f_vsprintf || !f_vsnprintf || !f_vfprintf || !f_vprintf) { fprintf(stderr, "missing symbols\n"); return 2; }
     ss((void *)handler);
     struct sigaction sa; memset(&sa, 0, sizeof sa); sa.sa_handler = on_sig; sa.sa_flags = SA_NODEFER; sigaction(SIGSEGV, &sa, NULL); sigaction(SIGABRT, &sa, NULL); sigaction(SIGFPE, &sa, NULL);
+    if (argc >= 4 && !strcmp(argv[1], "replay") && !strcmp(argv[2], "long")) { verbose = 1; long_pass(atoi(argv[3])); if (nsig) { printf("VERDICT violation %s\n", sigs[0]); return 1; } printf("VERDICT ok\n"); return 0; }
     if (argc >= 9 && !strcmp(argv[1], "replay")) {
         verbose = 1; const char *fmt = argv[8]; int type = atoi(argv[2]), vi = atoi(argv[3]), s1 = atoi(argv[4]), s2 = atoi(argv[5]); only_dmax = atol(argv[6]); only_entry = atoi(argv[7]);
         Val v; memset(&v, 0, sizeof v);
-        if (type >= T_INT && type <= T_PTRDIFF) v.i = IV[vi]; else if (type >= T_UINT && type <= T_UIMAX) v.u = UV[vi]; else if (type == T_DBL) v.d = DV[vi]; else if (type == T_LDBL) v.ld = DV[vi];
+        if (type >= T_INT && type <= T_PTRDIFF) v.i = IV[vi]; else if (type >= T_UINT && type <= T_UIMAX) v.u = UV[vi]; else if (type == T_DBL) v.d = DV[vi]; else if (type == T_LDBL) v.ld = LDVAL(vi);
         else if (type == T_STR) v.s = SV[vi]; else if (type == T_WSTR) v.w = WV[vi]; else if (type == T_WINT) v.i = WCV[vi]; else if (type == T_CHAR) v.i = CV[vi];
         if (type == T_MULTI) { int ix[4], k = parse_multi(fmt, ix); char f2[128]; if (k < 0 || build_multi(ix, k, vi, f2) || strcmp(f2, fmt)) { fprintf(stderr, "cannot rebuild the arguments of %s\n", fmt); return 2; } }
         int ns = 0; for (const char *p = fmt; *p; p++) if (*p == '*') ns++;
@@ -264,6 +294,7 @@ int main(int argc, char **argv) {
     }
     if (argc < 5) return 2;
     const char *group = argv[1]; int tier = !strcmp(argv[2], "thorough"); long shard = atol(argv[3]), nsh = atol(argv[4]); long idx = 0;
+    if (shard == 0 && !strcmp(group, "str")) long_pass(-1);
     /* width / precision menus: the quick tier takes the representatives, the thorough tier every value around the digit-buffer sizes */
     static char WIDB[40][8], PREB[40][8]; const char *WID[40], *PRE[40]; int NW = 0, NP = 0, WSTAR, PSTAR;
     { static const int qw[] = { 1, 5, 12, 40, 64 }, qp[] = { 0, 1, 5, 12, 40 };
@@ -304,7 +335,7 @@ int main(int argc, char **argv) {
                         for (int li = 0; li < 2; li++) {
                             if ((idx++ % nsh) != shard) continue;
                             snprintf(fmt, sizeof fmt, "[%%%s%s%s%s%c]", fl, WID[wi], PRE[pi], li ? "L" : "", cv);
-                            for (int vi = 0; vi < NDV; vi++) { Val v; memset(&v, 0, sizeof v); if (li) v.ld = DV[vi]; else v.d = DV[vi];
+                            for (int vi = 0; vi < NDV + (li ? 5 : 0); vi++) { Val v; memset(&v, 0, sizeof v); if (li) v.ld = LDVAL(vi); else v.d = DV[vi];
                                 char vb[32]; snprintf(cls, sizeof cls, "%c,flags=%s,width=%s,prec=%s,len=%s,%s%s", cv | 0x20, fl[0] ? fl : "none", WCLS(wi), PCLS(pi), li ? "L" : "none", valcls(li ? T_LDBL : T_DBL, v, vb), neg ? ",negative-star" : "");
                                 one(fmt, li ? T_LDBL : T_DBL, v, ns, a1, a2, 1, cls, vi, tier);
                             }
